@@ -140,6 +140,9 @@ async fn gated(plugin: Plugin<FState>, kind: &'static str, v: Value) -> Result<V
     tracing::info!("handler {} waiting", kind);
     let _ = rx.await;
     tracing::info!("handler {} done", kind);
+    if v.get("fail").and_then(|f| f.as_bool()) == Some(true) {
+        return Err(anyhow::anyhow!("handler failed on request"));
+    }
     Ok(json!({"result": "continue", "kind": kind, "echo": v}))
 }
 
@@ -194,6 +197,8 @@ pub fn stream(ep: u64) -> Stream {
     let id1 = json!(17 + ep * 10);
     let id2 = json!(format!("abc-é€-{}", ep));
     let id3 = json!(18 + ep * 10);
+    let id4 = json!(format!("err-{}", ep));
+    let p5 = json!({"fail": true, "ep": ep});
     let p1 = json!({"onion":{"payload":"00","note":"line1\nline2 é€😀 \\ \" end"},"htlc":{"id":1,"ep":ep}});
     let p2 = json!({"text":"ünïcödé 😀😀","n":[1,2,3],"ep":ep});
     let p3 = json!({"block_added":{"height":800001,"hash":"00ff"},"ep":ep});
@@ -203,6 +208,7 @@ pub fn stream(ep: u64) -> Stream {
         (json!({"jsonrpc":"2.0","id":id2,"method":"echo","params":p2}), false),
         (json!({"jsonrpc":"2.0","method":"block_added","params":p3}), false),
         (json!({"jsonrpc":"2.0","id":id3,"method":"htlc_accepted","params":p4}), true),
+        (json!({"jsonrpc":"2.0","id":id4,"method":"echo","params":p5}), false),
     ];
     let mut bytes = Vec::new();
     let mut boundaries = Vec::new();
@@ -233,8 +239,8 @@ pub fn stream(ep: u64) -> Stream {
     Stream {
         bytes,
         boundaries,
-        request_ids: vec![id1, id2, id3],
-        calls: vec![("hook".into(), p1), ("method".into(), p2), ("notification".into(), p3), ("hook".into(), p4)],
+        request_ids: vec![id1, id2, id3, id4],
+        calls: vec![("hook".into(), p1), ("method".into(), p2), ("notification".into(), p3), ("hook".into(), p4), ("method".into(), p5)],
         interesting,
     }
 }
@@ -457,7 +463,17 @@ pub fn run_episode(inst: &mut Instance, st: &Stream, e: &Episode) -> Vec<Violati
                 // the reply must carry the params of the request with that id
                 if let Some(pos) = st.request_ids.iter().position(|r| r == id) {
                     let want = &st.calls.iter().filter(|c| c.0 != "notification").nth(pos).unwrap().1;
-                    if d.get("result").and_then(|r| r.get("echo")) != Some(want) {
+                    let failing = want.get("fail").and_then(|f| f.as_bool()) == Some(true);
+                    if failing {
+                        if d.get("error").is_none() {
+                            vs.push(Violation {
+                                property: "C17",
+                                clause: "reply-carries-request-id",
+                                shape: "the request whose handler failed was not answered with an error carrying its id".into(),
+                                detail: d.to_string().chars().take(200).collect(),
+                            });
+                        }
+                    } else if d.get("result").and_then(|r| r.get("echo")) != Some(want) {
                         vs.push(Violation {
                             property: "C17",
                             clause: "reply-carries-request-id",
@@ -549,12 +565,12 @@ fn perms(n: usize) -> Vec<Vec<usize>> {
 /// after the chunk carrying its request has been fed).
 fn interleavings(st: &Stream, ep: u64) -> Vec<Episode> {
     // gated call k arrives with message index: calls 0,1,3 are gated (2 is the notification)
-    let arrival = [0usize, 1, 3];
+    let arrival = [0usize, 1, 3, 4];
     let nmsg = st.boundaries.len();
     let mut out = Vec::new();
     // state: next message to feed, set of completed calls
-    fn rec(fed: usize, done: u8, steps: &mut Vec<Step>, st: &Stream, arrival: &[usize; 3], nmsg: usize, ep: u64, out: &mut Vec<Episode>) {
-        if fed == nmsg && done == 0b111 {
+    fn rec(fed: usize, done: u8, steps: &mut Vec<Step>, st: &Stream, arrival: &[usize; 4], nmsg: usize, ep: u64, out: &mut Vec<Episode>) {
+        if fed == nmsg && done == 0b1111 {
             out.push(Episode {
                 ep,
                 steps: steps.clone(),
@@ -568,7 +584,7 @@ fn interleavings(st: &Stream, ep: u64) -> Vec<Episode> {
             rec(fed + 1, done, steps, st, arrival, nmsg, ep, out);
             steps.pop();
         }
-        for k in 0..3 {
+        for k in 0..4 {
             if done & (1 << k) == 0 && arrival[k] < fed {
                 steps.push(Step::Complete(k));
                 rec(fed, done | (1 << k), steps, st, arrival, nmsg, ep, out);
@@ -661,7 +677,7 @@ pub fn run(thorough: bool, _threads: usize, name: &'static str) -> JobResult {
     };
     let st0 = stream(0);
     let n = st0.bytes.len();
-    let orders = perms(3);
+    let orders = perms(4);
     // E1: every single cut point x every completion order (after everything was fed)
     {
         let mut eps: Vec<Episode> = Vec::new();
@@ -675,7 +691,7 @@ pub fn run(thorough: bool, _threads: usize, name: &'static str) -> JobResult {
                 eps.push(episode_cuts(&st, ep, &[c.min(st.bytes.len() - 1)], o));
             }
         }
-        run_set("E1 one cut x 6 completion orders", &mut eps.into_iter(), logging, &mut shared, &mut result, &mut outcomes);
+        run_set("E1 one cut x 24 completion orders", &mut eps.into_iter(), logging, &mut shared, &mut result, &mut outcomes);
     }
     // E2: every pair of cut points
     if !logging {
@@ -684,11 +700,11 @@ pub fn run(thorough: bool, _threads: usize, name: &'static str) -> JobResult {
         for (i, a) in pos.iter().enumerate() {
             for b in pos.iter().skip(i + 1) {
                 if thorough {
-                    for o in [&orders[0], &orders[5]] {
+                    for o in [&orders[0], &orders[23]] {
                         eps.push(episode_cuts(&st0, 0, &[*a, *b], o));
                     }
                 } else {
-                    eps.push(episode_cuts(&st0, 0, &[*a, *b], &orders[(a + b) % 6]));
+                    eps.push(episode_cuts(&st0, 0, &[*a, *b], &orders[(a + b) % 24]));
                 }
             }
         }
@@ -703,7 +719,7 @@ pub fn run(thorough: bool, _threads: usize, name: &'static str) -> JobResult {
             let cuts: Vec<usize> = (1..st.bytes.len()).collect();
             eps.push(episode_cuts(&st, ep, &cuts, o));
         }
-        run_set("E3 single bytes x 6 orders", &mut eps.into_iter(), logging, &mut shared, &mut result, &mut outcomes);
+        run_set("E3 single bytes x 24 orders", &mut eps.into_iter(), logging, &mut shared, &mut result, &mut outcomes);
     }
     // E4: every interleaving of message-sized chunks with completions
     {
@@ -783,7 +799,7 @@ pub fn run(thorough: bool, _threads: usize, name: &'static str) -> JobResult {
         for i in 0..p.len() {
             for j in (i + 1)..p.len() {
                 for k in (j + 1)..p.len() {
-                    eps.push(episode_cuts(&st0, 0, &[p[i], p[j], p[k]], &orders[(i + j + k) % 6]));
+                    eps.push(episode_cuts(&st0, 0, &[p[i], p[j], p[k]], &orders[(i + j + k) % 24]));
                 }
             }
         }
@@ -792,12 +808,12 @@ pub fn run(thorough: bool, _threads: usize, name: &'static str) -> JobResult {
     result.states = outcomes.len() as u64;
     result.distinct_outcomes = outcomes.len() as u64;
     result.rule = Some(format!(
-        "engine F{}: real cln_plugin Builder/driver/codec over in-memory pipes; node stream = handshake + 4 messages ({} bytes: two hook calls, one method call with a string id, one notification; multi-byte characters, escaped and literal single newlines, one pretty-printed body); enumerated (per-set episode counts are in `extra`; with logging on the pair/triple cut sets are skipped): every single cut point x all 6 handler completion orders, every pair of cut points, the all-single-bytes partition, every interleaving of message-sized feeds with handler completions, short/pending writes at each of the first 12 poll_write calls, select! start-branch deviations at every step{}; oracle: handlers invoked once per request in order with the sent params, output = complete JSON documents each followed by exactly one blank line, reply ids = request ids, replies echo their own request, nothing for notifications",
+        "engine F{}: real cln_plugin Builder/driver/codec over in-memory pipes; node stream = handshake + 5 messages ({} bytes: two hook calls, two method calls with string ids one of whose handler returns an error, one notification; multi-byte characters, escaped and literal single newlines, one pretty-printed body); enumerated (per-set episode counts are in `extra`; with logging on the pair/triple cut sets are skipped): every single cut point x all 24 completion orders of the four gated calls (one of which fails), every pair of cut points, the all-single-bytes partition, every interleaving of message-sized feeds with handler completions, short/pending writes at each of the first 12 poll_write calls, select! start-branch deviations at every step{}; oracle: handlers invoked once per request in order with the sent params, output = complete JSON documents each followed by exactly one blank line, reply ids = request ids, replies echo their own request, nothing for notifications",
         if logging { " (logging on, one long-lived instance, episodes from the idle state)" } else { "" },
         n,
         if thorough { ", every triple of cut points among the interesting offsets (separators, multi-byte characters, escapes)" } else { "" }
     ));
-    result.samples = vec![json!({"stream_utf8": String::from_utf8_lossy(&st0.bytes).chars().take(400).collect::<String>()}), json!({"episode": episode_cuts(&st0, 0, &[st0.boundaries[0] - 1, st0.boundaries[0] + 3], &orders[3]).describe()})];
+    result.samples = vec![json!({"stream_utf8": String::from_utf8_lossy(&st0.bytes).chars().take(400).collect::<String>()}), json!({"episode": episode_cuts(&st0, 0, &[st0.boundaries[0] - 1, st0.boundaries[0] + 3], &orders[7]).describe()})];
     result
 }
 
